@@ -118,6 +118,13 @@ def replay_doc(ctx, doc, letters):
                 ctx.case(dict(fn="find_neighbor_pairs", seqs=ref, hamming=ham, alphabet=alpha, n=len(want_pairs)), nontrivial=len(want_pairs) > 0)
                 if sorted(tuple(sorted(p)) for p in got_pairs) != want_pairs:
                     viol(f"find_neighbor_pairs/{suffix}/differs", f"find_neighbor_pairs({ref}, {suffix}) = {got_pairs} want {want_pairs}"[:500])
+                as_set = set(ref)
+                again1 = D.find_neighbor_pairs(as_set, neighborhood=nb)
+                again2 = D.find_neighbor_pairs(as_set, neighborhood=nb)
+                if as_set != set(ref):
+                    viol(f"find_neighbor_pairs/{suffix}/argument_mutated", f"find_neighbor_pairs(set {ref}) changed its argument to {sorted(as_set)}")
+                elif sorted(tuple(sorted(p)) for p in again1) != want_pairs or sorted(tuple(sorted(p)) for p in again2) != want_pairs:
+                    viol(f"find_neighbor_pairs/{suffix}/differs_on_set_or_repeat", f"find_neighbor_pairs(set {ref}) = {again1}, repeated {again2}, want {want_pairs}"[:500])
                 got_idx = D.find_neighbor_pairs_index(ref, neighborhood=nb)
                 want_idx = sorted({(ref.index(a), ref.index(b)) for a, b in want_pairs} | {(ref.index(b), ref.index(a)) for a, b in want_pairs})
                 if sorted(got_idx) != want_idx:
